@@ -27,6 +27,13 @@ class Prop:
     nontrivial_rule = ""
     extra_assumptions = []
     level = "proof"
+    claimed = True
+    level_text = ""
+    level_note = ("Trusted: Coq 8.16.1 kernel; Sem/ (hand-written semantics of Rust integers in both overflow profiles, slices, panics, "
+                  "io::Error kinds, collaborators as parameters); the hand-written model (translator style) is tied to the code by "
+                  "correspondence, i.e. differential execution on generated cases, not by translation; extraction via ExtrOcamlBasic; "
+                  "harness, generators and checkers. No axioms (Print Assumptions: closed under the global context).")
+    technique = "Coq proof over an executable model + model/implementation correspondence (differential execution, dev+release)"
 
     def gen(self, tier, rng):            # -> list[Case]
         raise NotImplementedError
